@@ -17,6 +17,7 @@ func init() {
 			"C07.2 refresh restarts the full timeout: on the existing-entry edge AddPermission resets with the new request's timeout; on every path of AddChannelBind that returns nil the binding is started or refreshed with channelLifetime and AddPermission(NewPermission(peer, _, permissionLifetime)) is called, unconditionally on both the new and the existing branch; " +
 			"C07.3 (=C01.5) expiry closures remove exactly their own entry; " +
 			"C07.4 the defaults replacing a zero configuration are constants equal to 5 and 10 minutes; " +
+			"C07.6 installed addresses do not alias decode storage (else expiry removes another peer's key); " +
 			"C07.5 find-and-remove in RemoveChannelBind/RemovePermission is one critical section: every direct read of the table in a function that removes from it happens under the same continuous hold of the write lock.",
 		NotCovered: "the instants at which timers fire; that an expired number/peer is free again beyond the removal checked in C07.3; races between expiry and a concurrent refresh.",
 		Run:        runC07,
@@ -25,55 +26,9 @@ func init() {
 
 func runC07(c *Ctx) {
 	w := c.W
-	fi := w.flow()
-	afterFunc := timeAfterFunc(w)
-	fiveMin := constant.MakeInt64(int64(300e9)).ExactString()
-	tenMin := constant.MakeInt64(int64(600e9)).ExactString()
 
 	// ---- C07.1
-	c.Rule("C07.1", "role flow: the duration of every time.AfterFunc / Timer.Reset in a method of Permission derives only from {ServerConfig.PermissionTimeout, 5 min}; in a method of ChannelBind only from {ServerConfig.ChannelBindTimeout, 10 min}; package-allocation API parameters without module callers are tolerated as embedding/test entry points", 4)
-	type role struct{ typ, cfg, def string }
-	for _, r := range []role{{"Permission", "cfg:ServerConfig.PermissionTimeout", "const:" + fiveMin}, {"ChannelBind", "cfg:ServerConfig.ChannelBindTimeout", "const:" + tenMin}} {
-		for _, mn := range []string{"start", "refresh"} {
-			fn := w.Func("allocation", r.typ, mn)
-			n := 0
-			w.eachInstr(fn, func(in ssa.Instruction) {
-				call, ok := in.(*ssa.Call)
-				if !ok {
-					return
-				}
-				var d ssa.Value
-				switch {
-				case call.Call.StaticCallee() == afterFunc:
-					d = call.Call.Args[0]
-				case call.Call.StaticCallee() != nil && call.Call.StaticCallee().String() == "(*time.Timer).Reset":
-					d = call.Call.Args[1]
-				default:
-					return
-				}
-				n++
-				c.Anchor("C07.1", r.typ+"."+mn)
-				lv := fi.leaves(d)
-				var bad []string
-				for _, l := range leafList(lv) {
-					switch {
-					case l == r.cfg, l == r.def:
-					case strings.HasPrefix(l, "param:") && strings.Contains(l, "allocation."):
-					default:
-						bad = append(bad, l)
-					}
-				}
-				if len(bad) == 0 {
-					c.OK("C07.1", fname(fn), r.typ+" timer duration", w.instrPos(in), "sources: "+strings.Join(leafList(lv), ", "))
-				} else {
-					c.Bad("C07.1", fname(fn), r.typ+" timer duration", w.instrPos(in), "a "+r.typ+" timer can be armed with a duration of another role: "+strings.Join(bad, ", ")+" (all sources: "+strings.Join(leafList(lv), ", ")+")")
-				}
-			})
-			if n == 0 {
-				c.Bad("C07.1", fname(fn), r.typ+" timer duration", w.pos(fn.Pos()), r.typ+"."+mn+" no longer arms/resets a timer: anchor gone")
-			}
-		}
-	}
+	ruleTimerRoles(c, "C07.1")
 
 	// ---- C07.2
 	c.Rule("C07.2", "refresh restarts the full timeout: AddPermission's existing-entry edge calls existing.refresh(perms.timeout) with the timeout of the permission passed in; the new-entry path calls perms.start(perms.timeout); every nil-returning path of AddChannelBind passes start(channelLifetime) or refresh(channelLifetime) on the binding and AddPermission(NewPermission(that binding's peer, _, permissionLifetime))", 4)
@@ -254,6 +209,7 @@ func runC07(c *Ctx) {
 
 	// ---- C07.5
 	ruleAtomicRemove(c, "C07.5")
+	ruleInstalledAddrFresh(c, "C07.6")
 }
 
 // allPathsTo: every path from the function entry to block `to` contains an instruction
@@ -350,4 +306,57 @@ func ruleAtomicRemove(c *Ctx, rule string) {
 			c.Bad(rule, fname(fn), s.field, w.pos(fn.Pos()), bad)
 		}
 	}
+}
+
+func ruleTimerRoles(c *Ctx, rule string) {
+	w := c.W
+	fi := w.flow()
+	afterFunc := timeAfterFunc(w)
+	fiveMin := constant.MakeInt64(int64(300e9)).ExactString()
+	tenMin := constant.MakeInt64(int64(600e9)).ExactString()
+	// ---- C07.1
+	c.Rule(rule, "role flow: the duration of every time.AfterFunc / Timer.Reset in a method of Permission derives only from {ServerConfig.PermissionTimeout, 5 min}; in a method of ChannelBind only from {ServerConfig.ChannelBindTimeout, 10 min}; package-allocation API parameters without module callers are tolerated as embedding/test entry points", 4)
+	type role struct{ typ, cfg, def string }
+	for _, r := range []role{{"Permission", "cfg:ServerConfig.PermissionTimeout", "const:" + fiveMin}, {"ChannelBind", "cfg:ServerConfig.ChannelBindTimeout", "const:" + tenMin}} {
+		for _, mn := range []string{"start", "refresh"} {
+			fn := w.Func("allocation", r.typ, mn)
+			n := 0
+			w.eachInstr(fn, func(in ssa.Instruction) {
+				call, ok := in.(*ssa.Call)
+				if !ok {
+					return
+				}
+				var d ssa.Value
+				switch {
+				case call.Call.StaticCallee() == afterFunc:
+					d = call.Call.Args[0]
+				case call.Call.StaticCallee() != nil && call.Call.StaticCallee().String() == "(*time.Timer).Reset":
+					d = call.Call.Args[1]
+				default:
+					return
+				}
+				n++
+				c.Anchor(rule, r.typ+"."+mn)
+				lv := fi.leaves(d)
+				var bad []string
+				for _, l := range leafList(lv) {
+					switch {
+					case l == r.cfg, l == r.def:
+					case strings.HasPrefix(l, "param:") && strings.Contains(l, "allocation."):
+					default:
+						bad = append(bad, l)
+					}
+				}
+				if len(bad) == 0 {
+					c.OK(rule, fname(fn), r.typ+" timer duration", w.instrPos(in), "sources: "+strings.Join(leafList(lv), ", "))
+				} else {
+					c.Bad(rule, fname(fn), r.typ+" timer duration", w.instrPos(in), "a "+r.typ+" timer can be armed with a duration of another role: "+strings.Join(bad, ", ")+" (all sources: "+strings.Join(leafList(lv), ", ")+")")
+				}
+			})
+			if n == 0 {
+				c.Bad(rule, fname(fn), r.typ+" timer duration", w.pos(fn.Pos()), r.typ+"."+mn+" no longer arms/resets a timer: anchor gone")
+			}
+		}
+	}
+
 }
